@@ -371,7 +371,12 @@ def execute(plan, prop, out, tr):
                 raise Violation("C14.cost", ctx + ": reported cost %.12g, cost of the returned trajectory %.12g" %
                                 (Cst[b], cc), i, "cost:" + keyctx)
             if kind != "NLS":
-                xr, ur, cstar, cond, costf, gradf, Hs = refmath.lq_reference(As, Bs, cs, Qn[b], pn[b], npd(x0)[b])
+                try:
+                    xr, ur, cstar, cond, costf, gradf, Hs = refmath.lq_reference(As, Bs, cs, Qn[b], pn[b], npd(x0)[b])
+                except np.linalg.LinAlgError:
+                    # the reduced Hessian is positive definite in exact arithmetic but not numerically (unstable dynamics
+                    # over a long horizon): no certificate
+                    out.declined("C14.optimal(reduced Hessian not numerically PD)"); continue
                 if not np.isfinite(cond) or cond > 1e12:
                     out.declined("C14.optimal(cond>1e12)"); continue
                 gap = costf(U[b].reshape(-1)) - cstar
